@@ -22,9 +22,9 @@ NCPU = int(os.environ.get("VC_NCPU", str(os.cpu_count() or 4)))
 
 INFRA_RE = re.compile(r"\.(unwind|recursion|loop_invariant_base|loop_invariant_step|loop_decreases|"
                       r"loop_assigns|loop_step_unwinding|no-body)\.\d+$|\.no-body\.")
-CBMC_FLAGS = ["--bounds-check", "--pointer-check", "--div-by-zero-check", "--pointer-primitive-check",
+CBMC_FLAGS = ["--bounds-check", "--pointer-check", "--div-by-zero-check",
               "--malloc-may-fail", "--malloc-fail-null"]
-CBMC_NO_DEFAULT = ["--no-signed-overflow-check", "--no-undefined-shift-check"]
+CBMC_NO_DEFAULT = ["--no-signed-overflow-check", "--no-undefined-shift-check", "--no-pointer-primitive-check"]
 
 
 class Job:
@@ -34,7 +34,7 @@ class Job:
                  backend="sat", timeout=None, kind="bounded", bound="", tier="quick", min_loops=0,
                  clause="", functions=(), cbmc_flags=(), fallback=None, static_only=False,
                  native_srcs=None, native_libs=("-lm",), expect_fail=None, object_bits=None, no_replay=False,
-                 native_defines=None):
+                 native_defines=None, loops=()):
         self.name = name; self.harness = harness; self.entry = entry or ("h_" + name.split("@")[0])
         self.srcs = list(srcs); self.enforce = enforce; self.replace = list(replace)
         self.loop_contracts = loop_contracts; self.unwind = unwind; self.unwindset = list(unwindset)
@@ -46,6 +46,9 @@ class Job:
         self.native_srcs = native_srcs; self.native_libs = list(native_libs)
         self.expect_fail = expect_fail; self.object_bits = object_bits; self.no_replay = no_replay
         self.native_defines = dict(native_defines or {})
+        self.loops = list(loops)
+        if self.loops:
+            self.loop_contracts = True
 
     def variant(self, suffix, **kw):
         import copy
@@ -133,15 +136,14 @@ def run_job(prop, job, tier, verbose=False, loopless=False):
     t0 = time.time()
     to = job.timeout or (300 if tier == "quick" else 1800)
     defs = {"VC_CBMC": None}
-    if not loopless:
-        defs[GUARD] = None
     defs.update(job.defines)
     prelude = []
     if job.mode == "ring":
         prelude = ["-include", os.path.join(VERIF, "harness", "ring_prelude.h")]
     a = os.path.join(wd, "a.gb")
     cmd = ["goto-cc"] + def_flags(defs) + incl_flags() + prelude + ["--function", job.entry,
-           os.path.join(VERIF, "harness", job.harness)] + [src_path(s) for s in job.srcs] + ["-o", a]
+           os.path.join(VERIF, "harness", job.harness)] + [src_path(s) for s in job.srcs] + \
+          [os.path.join(VERIF, "stubs", "stdio_stub.c")] + ["-o", a]
     res["cmds"].append(" ".join(cmd))
     rc, out, _ = sh(cmd, cwd=wd, timeout=300)
     if rc != 0:
@@ -178,6 +180,12 @@ def run_job(prop, job, tier, verbose=False, loopless=False):
             cmd += ["--replace-call-with-contract", r]
         if job.loop_contracts and not loopless:
             cmd += ["--apply-loop-contracts"]
+            if job.loops:
+                lcf, err = loop_contracts_file(wd, cur, job)
+                if lcf is None:
+                    res["detail"] = "loop contract file: " + err
+                    return res
+                cmd += ["--loop-contracts-file", lcf]
         cmd += [cur, b]
         res["cmds"].append(" ".join(cmd))
         rc, out, _ = sh(cmd, cwd=wd, timeout=600)
@@ -257,6 +265,10 @@ def run_job(prop, job, tier, verbose=False, loopless=False):
             else:
                 res["failed"].append(item)
     res["samples"] = samples
+    if any(r["status"] == "ERROR" for r in results):
+        res["status"] = "error"; res["failed"] = []; res["infra_failed"] = []
+        res["detail"] = "solver error (out of memory?): " + " | ".join(msgs)[-300:]
+        return res
     if not reach_ok:
         res["status"] = "vacuous"; res["detail"] = "VC_REACH witness not reachable: every path is cut before the end of the harness"
         return res
@@ -281,6 +293,61 @@ def run_job(prop, job, tier, verbose=False, loopless=False):
             except OSError:
                 pass
     return res
+
+
+def loop_contracts_file(wd, gb, job):
+    """Loop contracts live in /verif/contracts/loops.py keyed by (function, loop ordinal); they are handed to
+    goto-instrument --loop-contracts-file, with the local-variable symbol map derived from the goto binary."""
+    from contracts import loops as LC
+    rc, out, _ = sh(["goto-instrument", "--show-symbol-table", "--json-ui", gb], cwd=wd, timeout=300)
+    try:
+        st = None
+        for e in json.loads(out.decode()):
+            if "symbolTable" in e:
+                st = e["symbolTable"]
+        names = list(st.keys())
+    except Exception as e:
+        return None, "cannot read symbol table: %s" % e
+    funcs = []
+    for fn in job.loops:
+        if fn not in LC.LOOPS:
+            return None, "no loop contracts for %s" % fn
+        loc = {}
+        for n in names:
+            if n.startswith(fn + "::"):
+                base = n.split("::")[-1]
+                if "$" in base or "#" in base:
+                    continue
+                loc.setdefault(base, []).append(n)
+        entries = []
+        for k, lc in enumerate(LC.LOOPS[fn]):
+            if lc is None:
+                continue
+            text = " ".join([lc.get("assigns", ""), lc.get("inv", ""), lc.get("dec", "")])
+            sm = []
+            for base, syms in sorted(loc.items()):
+                if not re.search(r"(?<![A-Za-z0-9_>.])%s(?![A-Za-z0-9_])" % re.escape(base), text):
+                    continue
+                ov = lc.get("map", {}).get(base)
+                if ov:
+                    sm.append("%s,%s" % (base, ov))
+                elif len(syms) == 1:
+                    sm.append("%s,%s" % (base, syms[0]))
+                else:
+                    # prefer the outermost scope (fewest components)
+                    syms.sort(key=lambda x: (x.count("::"), x))
+                    sm.append("%s,%s" % (base, syms[0]))
+            ent = {"loop_id": str(lc.get("id", k)), "invariants": lc["inv"], "symbol_map": ";".join(sm)}
+            if lc.get("assigns"):
+                ent["assigns"] = lc["assigns"]
+            if lc.get("dec"):
+                ent["decreases"] = lc["dec"]
+            entries.append(ent)
+        funcs.append({fn: entries})
+    p = os.path.join(wd, "loops.json")
+    with open(p, "w") as f:
+        json.dump({"sources": [os.path.join(VERIF, "harness", job.harness)], "functions": funcs, "output": "OUTPUT"}, f, indent=1)
+    return p, None
 
 
 def trace_inputs(trace):
@@ -535,7 +602,7 @@ def write_evidence(prop, tier, mod, jobs, results, violations, known_hits, undec
                     "(shape instance for bounded jobs); non-trivial = produced at least one obligation and its reachability witness was reachable",
                checker_cmd="goto-cc ... && goto-instrument --dfcc <entry> --enforce-contract <F> [--replace-call-with-contract G] "
                            "[--apply-loop-contracts] && cbmc --bounds-check --pointer-check --div-by-zero-check "
-                           "--pointer-primitive-check [--unwind N --unwinding-assertions] (exact lines per job under .work/<prop>/<job>)",
+                           "[--unwind N --unwinding-assertions] (exact lines per job under .work/<prop>/<job>)",
                trusted_base=meta.get("trusted_base", []) + COMMON_TRUSTED,
                explanation=expl, exhaustive=False, samples=samples or [dict(note="no sample")],
                functions_under_contract=sorted(f for f in functions if f),
@@ -564,6 +631,7 @@ def cbmc_version():
 
 
 COMMON_TRUSTED = [
+    "stdio output functions (printf, fprintf, fflush, puts) replaced by effect-free stubs (stubs/stdio_stub.c)",
     "CBMC 6.11 C front end, goto-instrument DFCC contract instrumentation, built-in C library models (malloc/realloc/free/memmove/printf), MiniSat/CaDiCaL SAT back end",
     "harness-built operands: each harness allocates well-formed containers with nondeterministic contents; the contract's requires clause states the same well-formedness and is assumed at entry",
     "ghost-index generalisation: an obligation proved for the nondeterministic cell vc_k is taken to hold for every cell",
@@ -571,7 +639,7 @@ COMMON_TRUSTED = [
 COMMON_ASSUMPTIONS = [
     "allocation failure ends the path (xmalloc/xrealloc abort)",
     "machine integer ranges as stated in the requires clauses (vector sizes <= 2^20 in unbounded jobs; shapes as listed in bounded jobs)",
-    "signed-overflow and shift checks of CBMC are switched off; bounds, pointer, pointer-primitive and division checks are on",
+    "signed-overflow and shift checks of CBMC are switched off; bounds, pointer and division checks are on",
 ]
 
 
